@@ -135,8 +135,8 @@ CLAIMS = {
         "technique": "success-edge dominance on enum-valued outcomes through awaits, constructor-site inventory, iterator-exhaustion edges",
     },
     "C19": {
-        "text": "Decides: the QUIC-facing sender's returns are all Poll::Ready(Ok(())) except the propagated socket-closed error (built only when the socket is closed); unknown synthetic addresses are dropped before any transport; Mixed addresses go to the per-remote actor and never to a transport; each mapped kind resolves through its own map into its own FourTuple kind; TransportsSender::poll_send only reaches senders of the FourTuple's own kind and blackholes otherwise. IP routing predicates (prefix/default/scope) are not decided.",
-        "technique": "return-shape classification, match-arm table extraction, reachability from None edges",
+        "text": "Decides: the QUIC-facing sender's returns are all Poll::Ready(Ok(())) except the propagated socket-closed error (built only when the socket is closed); unknown synthetic addresses are dropped before any transport; Mixed addresses go to the per-remote actor and never to a transport; each mapped kind resolves through its own map into its own FourTuple kind; TransportsSender::poll_send only reaches senders of the FourTuple's own kind and blackholes otherwise. IP socket selection is decided as a table of relations: with a source address a socket matches only via wildcard(ip_net.addr()) or ip_net.addr() == src, without one only via ip_net.contains(dst.ip()) or (link-local) scope_id == dst.scope_id(); the default-route predicate depends only on is_default and the family; the destination's family selects the socket family; bound sockets are searched first (sorted by Reverse(prefix_len) at bind, default index computed after sorting) and the default-route socket only when none matched and only if is_valid_default_addr holds. That ipnet/std address predicates compute what their names say is assumed; no evaluation over address values.",
+        "technique": "return-shape classification, match-arm table extraction, reachability from None edges, relation-table extraction of boolean predicates (allowed-operation sets per match region + exact operand provenance), search-order dominance",
     },
     "C21": {
         "text": "Decides the hand-off protocol shape: run() has no in-loop return, closes the inbox before draining, returns the drained buffer with its own id, handles initial messages first; remove_or_restart_actor removes on empty leftovers else restarts *the same id* with exactly the leftovers and stores the new sender; send_to_actor hands the joined task's own id on, appends the failed message after the leftovers; only those two functions write senders / start actors. Interleavings with try_send from other threads are not explored.",
